@@ -51,4 +51,34 @@ PROPS.update({
     },
 })
 
+PROPS.update({
+    "C04": {
+        "title": "Degree bounds",
+        "rule": "Marlin, Sonic, IPA (thorough: also BLS12-377) with configurations holding >= 2 distinct enforced bounds (unsorted, duplicated). Refusal side: degree = bound+1, bound not in the enforced set, bound beyond the key, degree beyond the key, and `open` with an over-degree polynomial on valid states must yield Err/panic. Verifier side (with a positive control on the same transcript): commitment made under d' presented as d with the honest proof and with a proof from the library prover run under the presented bound; label removed; shifted part dropped (label kept / removed), swapped between two polynomials, borrowed; cross-key: degree d+1 polynomial committed under bound d+1 with a second key trimmed from the same SRS and presented as bound d to the first verifier key. Preconditions: p(z) != 0, z != 0, non-vacuous shift; cases failing them are skipped." + DIST,
+        "required_classes": ["degree-exceeds-bound", "bound-beyond-key", "degree-beyond-key", "positive-control", "mislabelled-bound", "cross-key-mislabel"],
+        "technique": "runtime monitoring: boundary-magnitude refusal oracle + relabelling faults on accepting transcripts with positive control",
+        "level_text": "Fault enumeration around every degree-bound boundary (deg=d+1, d not in B, d>key) and over every way of presenting a bounded commitment under another bound, each with a positive control so rejections are not vacuous.",
+        "design_ref": "5 (C04)",
+        "assumptions": TRUST + ["bounds are enforced through an identity at the evaluation point: points with p(z)=0 or z=0 are excluded (admissible query sampler assumption of the schemes)"],
+    },
+    "C06": {
+        "title": "Linear-combination openings",
+        "rule": GEN + "LC sets: 1..4 combinations of 1..6 terms, coefficients in {0,1,-1,random}, repeated labels, LCTerm::One terms, 1..3 point labels some sharing a point value, several LCs per point. Oracles: honest open_combinations/check_combinations accepts the true values (recomputed from the polynomials); a changed claimed value, verifier-side coefficient (on a non-vanishing evaluation), constant, or transmitted evaluation (plain, and shifted with all LC claims recomputed consistently) is not accepted; a combination mixing a degree-bounded polynomial with other terms is refused by open_combinations." + DIST,
+        "required_classes": ["honest-lc-accepted", "lc-value-perturbed", "lc-coefficient-perturbed", "lc-constant-perturbed", "degree-bound-mix-refused", "evals-perturbed"],
+        "technique": "runtime monitoring: generated LC workloads, accept-oracle + single-fault reject-oracle with truth recomputation",
+        "level_text": "Exploration of LC shapes the suite never builds (constants, zero/negative coefficients, repeated labels, shared point values) through both the Marlin-style overrides and the trait default, with fault injection on every verifier-visible LC component.",
+        "design_ref": "5 (C06)",
+        "assumptions": TRUST,
+    },
+    "C08": {
+        "title": "Commitments are the key-defined linear map",
+        "rule": "Per scheme, seeded polynomials p, q of all shapes, scalars a, b in {0,1,-1,random}, with/without degree bound and hiding: commitment == naive term-by-term scalar-multiplication sum over the PUBLIC PARAMETERS (plain window 0.., shifted window (max-d).., PST13 by term lookup, multilinear by hypercube index, Hyrax per row in column-major layout minus r_i*h from the mirrored state, streaming through the H2 hook) plus the blinding image computed from the returned state; a*C(p)+b*C(q) == image(a*p+b*q) + image of the library-combined randomness (and == library commit of the combination when unblinded); commit(0) == identity; PST13 term-order independence; Ligero/Brakedown: metadata == public compute_dimensions, root == Merkle root recomputed in the harness over Blake2s column hashes of the row-encoded matrix, equal polynomials equal roots, different polynomials different roots." + DIST,
+        "required_classes": ["naive-msm-plain", "naive-msm-shifted", "additivity", "zero-is-identity", "merkle-root-recomputed", "matrix-layout"],
+        "technique": "runtime monitoring: reference-model oracle (naive MSM / independent Merkle recomputation) on commit outputs",
+        "level_text": "Every commitment produced is compared with an independent recomputation from public key elements; the oracle shares no code with the library's MSM, window arithmetic or Merkle tree.",
+        "design_ref": "5 (C08)",
+        "assumptions": TRUST,
+    },
+})
+
 ALL_IDS = ["C%02d" % i for i in range(1, 20)]
